@@ -501,6 +501,16 @@ def directory_index(req, path):  # noqa: C901
             (('Last-Modified', last_modified),))
 
 
+def callable_name(fun):
+    """Name of function or class name of any other callable."""
+    return getattr(fun, '__name__', type(fun).__name__)
+
+
+def handler_name(fun):
+    """Module and name of handler, which could be any callable."""
+    return "%s.%s" % (getattr(fun, '__module__', None), callable_name(fun))
+
+
 def debug_info(req, app):
     """Return debug page.
 
@@ -513,7 +523,7 @@ def debug_info(req, app):
         ('   <tr><td colspan="2"><a href="%s">%s</a></td>'
          '<td>%s</td><td>%s</td></tr>' %
          (html_escape(u), html_escape(u), human_methods_(m),
-          f.__module__+'.'+f.__name__)
+          handler_name(f))
          for u, m, f in handlers_view(app.routes)))
 
     # regular expression handlers
@@ -522,9 +532,10 @@ def debug_info(req, app):
         ('   <tr><td><div class="path">%s</div></td>'
          '<td>%s</td><td>%s</td><td>%s</td></tr>' %
          (html_escape(r or u.pattern),
-          ', '.join(tuple("%s:<b>%s</b>" % (G, C.__name__) for G, C in c)),
+          ', '.join(tuple("%s:<b>%s</b>" % (G, callable_name(C))
+                          for G, C in c)),
           human_methods_(m),
-          f.__module__+'.'+f.__name__)
+          handler_name(f))
          for u, m, (f, c, r) in handlers_view(app.regular_routes, False)))
 
     dhandlers_html = "<tr><th>Default:</th></tr>\n"
@@ -541,7 +552,7 @@ def debug_info(req, app):
         ('   <tr><td colspan="2">_default_handler_</td>'
          '<td>%s</td><td>%s</td></tr>' %
          (human_methods_(m),
-          f.__module__+'.'+f.__name__)
+          handler_name(f))
          for x, m, f in handlers_view({'x': app.defaults})))
 
     # transform state handlers and default state table to html, users handler
@@ -557,7 +568,7 @@ def debug_info(req, app):
 
     ehandlers_html = "\n".join(
         "   <tr><td>%s</td><td>%s</td><td>%s</td></tr>" %
-        (c, human_methods_(m), f.__module__+'.'+f.__name__)
+        (c, human_methods_(m), handler_name(f))
         for c, m, f in handlers_view(_tmp_shandlers))
 
     # pre and post table
@@ -569,14 +580,14 @@ def debug_info(req, app):
 
     pre_post_html = "\n".join(
         "   <tr><td>%s</td><td>%s</td></tr>" %
-        (f0.__module__+'.'+f0.__name__ if f0 is not None else '',
-         f1.__module__+'.'+f1.__name__ if f1 is not None else '',)
+        (handler_name(f0) if f0 is not None else '',
+         handler_name(f1) if f1 is not None else '',)
         for f0, f1 in zip(pre, post))
 
     # filters
     filters_html = "\n".join(
         "   <tr><td>%s</td><td>%s</td><td>%s</td></tr>" %
-        (f, html_escape(str(r)), c.__name__)
+        (f, html_escape(str(r)), callable_name(c))
         for f, (r, c) in app.filters.items())
 
     # transform actual request headers to hml
